@@ -43,7 +43,7 @@ var checkSpecs = map[string]CheckSpec{
 		{Pkg: "origins", Entry: "zzH_C01_tree2", Reach: []string{"contained", "not-contained"}, Secondary: true},
 		{Pkg: "origins", Entry: "zzH_C01_tree3", Reach: []string{"contained", "not-contained"}, Secondary: true},
 	}, Bounds: map[string]string{
-		"quick":    "API: every ordered selection with repetition of 1-2 patterns from a pool of 6 (exact, *.sub, shared non-label suffix, *.b:*, fixed port, scheme that is a prefix), concrete patterns built by the real NewMiddleware; plus `*` listed with 0-2 pool patterns before and 0-2 after it; one Origin value of <=13 fully symbolic bytes. Tree level (Tree.Insert/Contains on origins.Pattern values as ParsePattern produces them; hosts over the alphabet {a,b,.}): tree1 = 1 pattern with a symbolic value of <=6 bytes (incl. `*.`), symbolic scheme in {z,zz}, symbolic port in {absent} u [1,65535] u {*}, origin host <=6 symbolic bytes, symbolic scheme and port; tree2 = 2 such patterns with values of <=5 bytes (hosts <=3), origin host <=4 bytes; tree3 = every ordered triple with repetition from a pool of 7 hosts (ab, bab, bb, a.b, b.b, *.b, *.ab: splits of a node that has a subtree, siblings under a common node, a wildcard ending on an inner node) x port absent/81 per pattern, one scheme, origin host <=4 symbolic bytes with symbolic port",
+		"quick":    "API: every ordered selection with repetition of 1-2 patterns from a pool of 6 (exact, *.sub, shared non-label suffix, *.b:*, fixed port, scheme that is a prefix), concrete patterns built by the real NewMiddleware; plus `*` listed with 0-1 pool patterns before and 0-1 after it; one Origin value of <=13 fully symbolic bytes. Tree level (Tree.Insert/Contains on origins.Pattern values as ParsePattern produces them; hosts over the alphabet {a,b,.}): tree1 = 1 pattern with a symbolic value of <=6 bytes (incl. `*.`), symbolic scheme in {z,zz}, symbolic port in {absent} u [1,65535] u {*}, origin host <=6 symbolic bytes, symbolic scheme and port; tree2 = 2 such patterns with values of <=5 bytes (hosts <=3), origin host <=4 bytes; tree3 = every ordered triple with repetition from a pool of 7 hosts (ab, bab, bb, a.b, b.b, *.b, *.ab: splits of a node that has a subtree, siblings under a common node, a wildcard ending on an inner node) x port absent/81 per pattern, one scheme, origin host <=4 symbolic bytes with symbolic port",
 		"thorough": "API: pool of 16 (adds bare TLD, :*, trailing dot, deeper subdomain, IPv6, IPv4, longer scheme, second shared-suffix host, *.sub with port, port 65535), 1-2 patterns from it and 3 patterns from its first 8; Origin <=16 symbolic bytes. tree2: origin host <=5 bytes; tree3: pool of 12 hosts, origin host <=5 bytes",
 	}, Outside: "more than 3 patterns; three patterns with hosts outside the pools; pattern hosts longer than 4 bytes at tree level (253-byte hosts: see C13); alphabets larger than {a,b,.} at tree level (the tree only compares bytes for equality and order); origins longer than the bound; bracketed non-IP hosts (the request-side parser is documented as lenient; not judged)",
 		Explain: "API: ACAO present <=> some listed pattern denotes the symbolic origin, with the denotation written by hand from the documentation (zzDenotes). Tree level: Tree.Contains(o) <=> exists i. denotes(p_i, o) with patterns whose scheme, host bytes, `*.` prefix and port are solver variables, so the shape of the radix tree is determined by the path condition; order- and multiplicity-independence follow because the patterns are inserted in the order drawn and the oracle is symmetric and idempotent"},
